@@ -153,6 +153,7 @@ def r2_operators(ctx):
 
 
 def run(ctx):
+    ctx.guard("C12.DRV", "operators execute through their driver", lambda: __import__("initspec").check_delegations(ctx, "C12", 4))
     ctx.guard("C12.R4", "`better` is the numeric order of the objective values (ties incl. -0.0 / +0.0 are ties)", lambda: __import__("c09").r3_total_order(ctx, "C12.R4"))
     ctx.guard("C12.K17", "constructor fidelity", lambda: __import__("ctor").check_for(ctx, "C12", 13))
     ctx.guard("C12.R1", "driver", lambda: r1_driver(ctx))
